@@ -46,6 +46,12 @@ pub fn defined_records(e: &Expression, recs: Vec<FileRecord>, now_lo: i128, now_
 }
 
 pub fn validate(e: &Expression, opts: &RunOptions, mk_records: &mut dyn FnMut(i128) -> Vec<FileRecord>) -> Tv {
+    validate_as(e, e, opts, mk_records)
+}
+
+/// Compile and run `e`, but take the reference meaning from `eref` (e.g. `e` with option nodes
+/// replaced by -true).
+pub fn validate_as(e: &Expression, eref: &Expression, opts: &RunOptions, mk_records: &mut dyn FnMut(i128) -> Vec<FileRecord>) -> Tv {
     for _attempt in 0..3 {
         let (res, t0, t1) = match compile_g(e, opts, MDT) {
             Ok(v) => v,
@@ -59,7 +65,7 @@ pub fn validate(e: &Expression, opts: &RunOptions, mk_records: &mut dyn FnMut(i1
             Err(msg) => return Tv::Refused(msg),
         };
         let recs = mk_records(t1);
-        let recs = match defined_records(e, recs, t0, t1) {
+        let recs = match defined_records(eref, recs, t0, t1) {
             Ok(r) => r,
             Err(u) => return Tv::Skip(format!("{:?}", u)),
         };
@@ -94,11 +100,11 @@ pub fn validate(e: &Expression, opts: &RunOptions, mk_records: &mut dyn FnMut(i1
         }
         // the policy must match the reference for one clock value in [t0, t1], the same for all records
         let mut last_bad = None;
-        let modes = RefMode::candidates(e);
+        let modes = RefMode::candidates(eref);
         for (now, mode) in (t0..=t1).flat_map(|n| modes.iter().map(move |m| (n, *m))) {
             let mut bad = None;
             for (i, r) in recs.iter().enumerate() {
-                let want = reference_mode(e, r, now, mode).expect("defined above");
+                let want = reference_mode(eref, r, now, mode).expect("defined above");
                 if want != run.outcomes[i] {
                     let kind = if want.truth != run.outcomes[i].truth {
                         "truth"
